@@ -151,3 +151,14 @@ Definition first_hop (o : outcome) : option (str * bool * role) :=
   | OFail => None
   | OSent a tls w => Some (a, match wire_role w with RPeer => false | _ => tls end, wire_role w)
   end.
+
+(* the socket events of one exchange according to the spec: dial attempts (retries of the SAME address) and
+   one use of the connection *)
+Definition spec_exchange (cfg : config) (rules : list rule) (t : target) (attempts failures : nat) : list event :=
+  match spec_route cfg rules t with
+  | OFail => []
+  | OSent a tls w =>
+      if Nat.ltb failures (effective_attempts attempts)
+      then repeat (EvDial a) (S failures) ++ [EvUse a tls w]
+      else repeat (EvDial a) (effective_attempts attempts)
+  end.
